@@ -207,6 +207,20 @@ def run_system(sysd, tier, res, fsets=None):
                                 again = ts.fsolve(F.copy(), freq.copy(), incrb=incrb, rf_disp_only=rdo)
                                 if not all(np.array_equal(getattr(again, nm), getattr(sol, nm)) for nm in "dva"):
                                     out.append((case, "%s: solving again on the same instance (after a different fsolve) gives a different answer" % tag))
+                            if incrb == "dva" and solver in ("SolveUnc", "FreqDirect") and fname == "dense":
+                                # ONE frequency array object changed in place between calls on one solver object
+                                fq = freq.copy()
+                                ts.fsolve(F.copy(), fq, incrb=incrb, rf_disp_only=rdo)
+                                for step, mut in enumerate((lambda x: x.__imul__(1.5), lambda x: x.__iadd__(0.21), lambda x: x.__setitem__(slice(None), freq))):
+                                    mut(fq)
+                                    got = ts.fsolve(F.copy(), fq, incrb=incrb, rf_disp_only=rdo)
+                                    tsf = ode.SolveUnc(*args, rf=rfarg) if solver == "SolveUnc" else ode.FreqDirect(*args, rf=rfarg)
+                                    if solver == "FreqDirect" and rb and (fq == 0).any():
+                                        break
+                                    want = tsf.fsolve(F.copy(), fq.copy(), incrb=incrb, rf_disp_only=rdo)
+                                    if not all(np.array_equal(getattr(got, nm), getattr(want, nm)) for nm in "dva"):
+                                        out.append((case, "%s: after the caller changed its frequency array in place (step %d) fsolve on the same solver object differs from a fresh solver with the same values" % (tag, step + 1)))
+                                        break
                             if incrb == "dva" and solver in ("SolveUnc", "FreqDirect"):
                                 # inputs are never modified, whatever their memory layout / dtype
                                 for lay, Fx in (("F-order complex", np.asfortranarray(F.astype(complex))), ("F-order real", np.asfortranarray(F.real.copy())),
@@ -308,7 +322,7 @@ def systems(tier):
     zs = [("u.01", 0.01), ("u.5", 0.5), ("o1.5", 1.5)] if tier == "quick" else [("u0", 0.0), ("u.01", 0.01), ("u.5", 0.5), ("crit", 1.0), ("o1.5", 1.5), ("o20", 20.0)]
     for (n1, z1), (n2, z2) in itertools.product(zs, zs):
         for ti in (0, 1):
-            for variant in ("prop", "nonprop", "cplxK", "cplxB", "cplxM"):
+            for variant in ("prop", "nonprop", "cplxK", "cplxB", "cplxM", "gyro"):
                 modes = [c01.el_mode(n1, whs[0], z1, 1.0), c01.el_mode(n2, whs[-1] * 1.3, z2, 1.0)]
                 T = c01.TRANS[2][ti]
                 M = T.T @ np.diag([1.0, 1.0]) @ T
@@ -317,6 +331,9 @@ def systems(tier):
                 if variant == "nonprop":
                     B = B + np.array([[0.3, -0.1], [-0.1, 0.2]]) * max(1.0, np.abs(B).max()) * 0.2
                 M, B, K = (0.5 * (X + X.T) for X in (M, B, K))
+                if variant == "gyro":  # symmetric m, k with a NON-symmetric damping matrix (gyroscopic / aerodynamic terms)
+                    g = 0.3 * max(1.0, np.abs(B).max())
+                    B = B + np.array([[0.0, g], [-g, 0.0]])
                 if variant == "cplxK":
                     K = K * (1 + 0.04j)
                 if variant == "cplxB":
@@ -403,6 +420,48 @@ def run_pre_eig(tier, res):
     return out
 
 
+def run_pre_eig_mvec(tier, res):
+    """pre_eig=True with the lumped mass handed over as a (non-uniform) vector and b, k as 2-D matrices (and the other
+    mixed forms): the frequency response equals the direct solution of the physical system"""
+    from pyyeti import ode
+
+    out = []
+    mv = np.array([1.0, 2.5, 0.7])
+    K = np.array([[500.0, -200.0, 0.0], [-200.0, 450.0, -250.0], [0.0, -250.0, 250.0]])
+    Bp = 2e-4 * K + 0.05 * np.diag(mv)  # proportional (modal) damping
+    bv = np.array([0.4, 1.5, 0.3])  # dashpots to ground, as a vector
+    freq = np.array([0.5, 2.0, 9.0])
+    F = forces(3, 3)["dense"]
+    W = 2 * np.pi * freq
+    forms = {"m1d,b2d,k2d": (mv, Bp, K, Bp), "m1d,b1d,k2d": (mv, bv, K, np.diag(bv)), "m2d,b1d,k2d": (np.diag(mv), bv, K, np.diag(bv)), "mNone,b2d,k2d": (None, Bp, K, Bp)}
+    for fn_, (m_, b_, k_, Bfull) in forms.items():
+        Mfull = np.eye(3) if m_ is None else np.diag(mv)
+        d = np.zeros((3, 3), complex)
+        for j, w in enumerate(W):
+            d[:, j] = np.linalg.solve(-w * w * Mfull + 1j * w * Bfull + K, F[:, j])
+        for solver in ("SolveUnc",):
+            case = dict(part="pre_eig_mvec", form=fn_, solver=solver)
+            res.ev("pre_eig_mvec/%s" % fn_)
+            try:
+                with warnings.catch_warnings():
+                    warnings.simplefilter("ignore")
+                    sol = ode.SolveUnc(m_, b_, k_, pre_eig=True).fsolve(F.copy(), freq)
+                    solt = ode.SolveUnc(m_, b_, k_, 0.01, pre_eig=True).tsolve(np.real(F).copy())
+                    soln = ode.SolveUnc(m_, b_, k_, 0.01).tsolve(np.real(F).copy())
+            except Exception as e:  # noqa
+                out.append((case, "SolveUnc(pre_eig=True, %s) raised %r" % (fn_, e)))
+                continue
+            for nm, x, xr in (("d", sol.d, d), ("v", sol.v, d * (1j * W)), ("a", sol.a, d * (-W * W))):
+                e = np.abs(x - xr).max() / np.abs(xr).max()
+                res.err("pre_eig_mvec", e)
+                if not e <= 1e-10:
+                    out.append((case, "SolveUnc(pre_eig=True) with %s: %s differs from the direct solution of the physical system: rel err %.3g" % (fn_, nm, e)))
+            e = np.abs(solt.d - soln.d).max() / np.abs(soln.d).max()
+            if not e <= 1e-9:
+                out.append((case, "SolveUnc(pre_eig=True).tsolve with %s differs from pre_eig=False: rel err %.3g" % (fn_, e)))
+    return out
+
+
 def run_solvepsd(tier, res):
     from pyyeti import ode
 
@@ -473,6 +532,7 @@ def shards(tier, seed):
     n = 64 if tier == "quick" else 128
     out = [dict(part="sys", idx=list(range(i, len(S), n)), tier=tier) for i in range(min(n, len(S)))]
     out.append(dict(part="pre_eig", tier=tier))
+    out.append(dict(part="pre_eig_mvec", tier=tier))
     out.append(dict(part="solvepsd", tier=tier))
     r = seed % len(out)
     return out[r:] + out[:r]
@@ -495,6 +555,10 @@ def run_shard(sh):
                 case = dict(part="sys", sys=i, sysname=S[i]["name"], tier=tier, **extra)
                 res.viol(case, msg, kind="%s-%s" % (msg.split(":")[0].split("/")[0], " ".join(msg.split(":")[1].split()[:1] + msg.split()[-8:-6])))
         res.sample(dict(part="sys", sysname=S[i]["name"], rb=S[i]["rb"], rf=S[i]["rf"]))
+    elif sh["part"] == "pre_eig_mvec":
+        for case, msg in run_pre_eig_mvec(tier, res):
+            res.viol(dict(tier=tier, **case), msg, kind="pre_eig_mvec")
+        res.sample(dict(part="pre_eig_mvec"))
     elif sh["part"] == "pre_eig":
         for case, msg in run_pre_eig(tier, res):
             res.viol(dict(tier=tier, **case), msg, kind="pre_eig")
@@ -517,4 +581,6 @@ def replay(case):
                 and ex["rf_disp_only"] == case["rf_disp_only"]]
     if case["part"] == "pre_eig":
         return [m for c, m in run_pre_eig(tier, res) if all(c[k] == case[k] for k in c)]
+    if case["part"] == "pre_eig_mvec":
+        return [m for c, m in run_pre_eig_mvec(tier, res) if all(c[k] == case[k] for k in c)]
     return [m for c, m in run_solvepsd(tier, res) if all(c[k] == case[k] for k in c)]
